@@ -196,6 +196,8 @@ where
 def treeIdentityOf (values : List Str) : List (Str × Str) :=
   (Generated.LarkCache.treeIdentity.map (·.1)).zip values
 
-def Plain (s : Str) : Prop := '\'' ∉ s
+/-- a string whose `repr` is the string between single quotes: printable ASCII without quote and backslash (mtime strings,
+    grammar paths such as `data/grammar.lark`, rule and algorithm names) -/
+def Plain (s : Str) : Prop := ∀ c ∈ s, c ≠ '\'' ∧ c ≠ '\\' ∧ 0x20 ≤ c.toNat ∧ c.toNat ≤ 0x7e
 
 end Tranp.Shape
